@@ -472,6 +472,36 @@ def _verify_used(ctx: Ctx, res: RuleResult):
     res.ob(site, 'v: every recorded file is compared (recorded digest != current digest -> False; True only after the loop)', ok)
     if not ok:
         res.finding(v, v.node, 'verify_used_files does not compare every recorded import with its current digest', construct='v:shape')
+    # pure: no state survives a call (a memo would hide an edit of an imported file made later in the same process)
+    from .effects import writes_of
+    local_names = set(v.param_names())
+    for n in v.body_nodes():
+        if isinstance(n, ast.Name) and isinstance(n.ctx, ast.Store):
+            local_names.add(n.id)
+    globals_decl = {x for n in v.body_nodes() if isinstance(n, ast.Global) for x in n.names}
+    impure = []
+    for w in writes_of(v):
+        root = w.recv
+        while isinstance(root, (ast.Attribute, ast.Subscript)):
+            root = root.value
+        if isinstance(root, ast.Name) and (root.id not in local_names or root.id in globals_decl):
+            impure.append(norm(w.stmt)[:70])
+        if w.what == 'global':
+            impure.append(norm(w.stmt)[:70])
+    okp = not impure
+    res.ob(site, 'v: verify_used_files keeps no state between calls', okp)
+    if not okp:
+        res.finding(v, v.node, 'verify_used_files remembers results across calls (%s): an imported file edited later in the same '
+                    'process is no longer re-read and the stale cache is served' % impure[:2], construct='v:memo')
+    if loops:
+        conts = [n for n in ast.walk(loops[0]) if isinstance(n, ast.Continue)]
+        okc = True
+        for c in conts:
+            g_ = [a for a in ancestors(c) if isinstance(a, ast.If)]
+            okc = okc and bool(g_) and norm(g_[0].test) == 'text is None'
+        res.ob(site, 'v: a recorded file is skipped only when it cannot be read at all', okc)
+        if not okc:
+            res.finding(v, v.node, 'verify_used_files skips the comparison of some recorded files', construct='v:skip')
     imp = repo.func('lark.load_grammar:GrammarBuilder.do_import')
     rec = [n for n in imp.body_nodes() if isinstance(n, ast.Assign) and isinstance(n.targets[0], ast.Subscript)
            and norm(n.targets[0].value) == 'self.used_files']
